@@ -9,6 +9,10 @@ P = {
  "C04": ("Theorems about the reference model Spec.v (errors change nothing, read-your-own-writes at any depth, ordered-map laws) hold for all programs and states; "
          "every API result and dump of the implementation is compared with the extracted Spec on generated histories, so a deviation is a concrete failing program.",
          "Root bucket used only through Tx methods; oversized bucket names and MoveBucket into the moved bucket's own subtree (D4) are outside generation.", "DESIGN.md §8 C04"),
+ "C05": ("Cursor.v is a line-for-line Gallina model of cursor.go; theorems: the full refinement statement to the sorted-list specification is REFUTED with a kernel-checked witness (known finding D9), "
+         "the repaired prev/Last behaviour vs the pinned one on concrete trees, and enumeration laws of the specification; the model is compared call by call with the real cursor on the tree "
+         "the cursor actually walks (VerifDumpTree), and the specification is evaluated on every call sequence.",
+         "Refinement theorem for trees without emptied leaves is not yet proved (monitored: committed trees have none); every call runs under a 3 s deadline.", "DESIGN.md §8 C05"),
  "C07": ("The accounting decision procedure Layout.accounted is proved sound for every decoded view (yes => ids in [2,mark) are partitioned into reachable-once / freelist page / free-once); "
          "it is evaluated by the extracted independent reader on the file bytes after every commit of generated histories, together with key order, element bounds, file length and Tx.Check.",
          "Decoder fuel 200 levels of nesting/depth; images are the page-cache view of the file.", "DESIGN.md §8 C07"),
